@@ -91,17 +91,17 @@ Theorem resolution_correct_partial :
 Proof. exact resolution_correct_x. Qed.
 Print Assumptions resolution_correct_partial.
 
-(* rename_alpha (on [core_d] = the fragment of resolution_correct_partial without loops and function-expression
-   names, as its corollary): take any assignment rho of
+(* rename_alpha (on the fragment of resolution_correct_partial, as its corollary): take any assignment rho of
    new names to Vars that gives distinct names, not occurring in the program, to the declared Vars and leaves
    undeclared Vars alone.  The program in which every identifier occurrence is replaced by rho of its Var
-   ([rename_prog], same tree shape) is in the fragment again (and in the fragment without default values and
-   classes, [core], if p is) and the declarative resolver binds every occurrence of it in the same scope as
-   before, under the new name: the renamed program is alpha-equivalent to the original.
-   Example: Main2.rename_example, Main2.rename_example_d. *)
+   ([rename_prog], same tree shape) is in the fragment again (and in the smaller fragments [core_d] - no loops,
+   no expression names - and [core] - no default values, no classes - if p is) and the declarative resolver
+   binds every occurrence of it in the same scope as before, under the new name: the renamed program is
+   alpha-equivalent to the original.
+   Example: Main2.rename_example, Main2.rename_example_d, Main2.rename_example_x. *)
 Theorem rename_alpha :
   forall (p : prog) (rho : nat -> Z),
-    core_d p = true -> program_ok p = true -> Z.of_nat (occurrences p) < 65536 ->
+    core_x p = true -> program_ok p = true -> Z.of_nat (occurrences p) < 65536 ->
     exists ps,
       run_program p = Running ps /\
       let st := pst ps in
@@ -113,7 +113,7 @@ Theorem rename_alpha :
       (forall i, (i < length vs)%nat -> vdecl (vget st (nth i vs O)) <> NoDecl -> ~ In (rho (nth i vs O)) (allnames p)) ->
       (forall i, (i < length vs)%nat -> vdecl (vget st (nth i vs O)) = NoDecl -> rho (nth i vs O) = vname (vget st (nth i vs O))) ->
       let p' := rename_prog (map rho vs) p in
-      core_d p' = true /\ (core p = true -> core p' = true) /\
+      core_x p' = true /\ (core_d p = true -> core_d p' = true) /\ (core p = true -> core p' = true) /\
       spec_resolve p' =
         map (fun vt => match snd vt with TGlobal x => TGlobal x | TBind s a _ => TBind s a (rho (fst vt)) end) (combine vs ts).
 Proof. exact rename_alpha_core. Qed.
